@@ -914,7 +914,13 @@ fn truncate_compiled(seed: u64) -> serde_json::Value {
                     for (x, y) in inputs.iter().zip(out.iter()) {
                         tried += 1;
                         let y: i128 = if signed { let sh = 64 - w; (((*y as i64) << sh) >> sh) as i128 } else { (*y & (u64::MAX >> (64 - w))) as i128 };
-                        let ok = if p2 { let f = x.div_euclid(scale as i128); y == f || y == f + 1 } else if x.abs() < (1i128 << (w / 2)) { (y - x / scale as i128).abs() <= 1 } else { true };
+                        // general divisor: plaintext quotient +-1, APART FROM the documented wrap-around event (the two share groups x0 and x1+x2 are truncated separately as signed numbers,
+                        // so their sum may be off by one modulus: (x + k*2^w)/scale, k in {-1, 1}); its probability ~ |x| / 2^(w-1) is negligible only for wide types, so for
+                        // w < 32 the wrapped outcomes are accepted (with one more unit of rounding slack) - flagging them would demand more than C05 states
+                        let ok = if p2 { let f = x.div_euclid(scale as i128); y == f || y == f + 1 } else if x.abs() < (1i128 << (w / 2)) {
+                            let m = 1i128 << w; let red = |v: i128| -> i128 { let r = v.rem_euclid(m); if signed && r >= m / 2 { r - m } else { r } };
+                            (y - x / scale as i128).abs() <= 1 || (w < 32 && [-1i128, 1].iter().any(|k| { let q = (x + k * m) / scale as i128; (-2..=2).any(|e| red(q + e) == y) }))
+                        } else { true };
                         if !ok { return Ok(Some(json!({"found": true, "routine": "truncate_compiled", "property": "C05", "input": {"scalar_type": format!("{}", st), "scale": scale.to_string(), "x": x.to_string(), "owner": "party 0"},
                             "observed": y.to_string(), "expected": if p2 { "floor(x/2^k) or floor(x/2^k)+1" } else { "plaintext quotient +-1" }, "what": "Truncate compiled by prepare_for_mpc_evaluation and evaluated with random tapes"}))); }
                     }
